@@ -626,7 +626,7 @@ func init() { registerReplay("C05", propC05) }
 
 const c05Rule = "rapid-generated schedules of <=14 steps over three actors (client sender: SendMsg small/medium, CloseSend also repeated; client receiver: RecvMsg, Header, Trailer; handler: RecvMsg, SendMsg, SetHeader, SendHeader, SetTrailer, return ok/err) plus cancellation, on the in-process channel, httpgrpc.Server and HandleServices for client-, server- and bidi-streaming; each step is released when the previous one has returned or parked (goroutine state from runtime.Stack); " +
 	"then phase A (client closes and drains, handler returns), phase B (context cancelled), operations after completion, goroutine census; invariants: no panic; everything finishes in phase A (10 s, stable park = deadlock) and certainly in phase B; later operations return; without cancellation sends return nil or io.EOF (EOF only once the handler returned), receives are an intact prefix of what the handler sent followed by the handler's status, stable across repeated calls; no library goroutine survives; " +
-	"also generated since the seeded rounds: a second client goroutine calling CloseSend, a second handler goroutine (in-process) incl. SendHeader after the handler returned, sends above 256 KiB, undecodable reply headers and HTTP-level rejection (401/403/404/415/502/503 from a middleware: only termination, panics and leaks judged), senders-only drain stage; " +
+	"also generated since the seeded rounds: a second client goroutine calling CloseSend, a second handler goroutine (in-process) incl. SendHeader after the handler returned, sends above 256 KiB, undecodable reply headers and HTTP-level rejection (401/403/404/415/502/503 from a middleware: only termination, panics and leaks judged), senders-only drain stage, a second receiving goroutine calling Header() concurrently with RecvMsg, the per-method HTTP server form; " +
 	"non-trivial = a scheduled client operation was pending or issued after the handler returned; distinct by case hash"
 
 func TestC05(t *testing.T) {
